@@ -16,11 +16,26 @@ def main():
     from harness.core import runner
     try:
         rc = runner.run(a.prop.upper(), a.tier, seed, a.replay)
-    except Exception:
+    except Exception as exc:
         import traceback
-        traceback.print_exc()
-        print("INFRA-ERROR: check crashed")
-        rc = 2
+        tb = traceback.format_exc()
+        sys.stdout.write(tb)
+        repo = os.path.realpath(os.environ.get("ANNET_REPO", "/repo"))
+        frames = traceback.extract_tb(exc.__traceback__)
+        in_repo = any(os.path.realpath(f.filename).startswith(repo + os.sep) for f in frames) or (repo + os.sep) in tb
+        if in_repo and not a.replay:
+            # the code under test raised where the harness has no case to blame (set-up, generation, translation, a
+            # helper process): the correspondence cannot be established, so the property is not shown to hold
+            from harness.core import runner as _r
+            path = _r.write_replay(a.prop.upper(), "unproved", dict(
+                property=a.prop.upper(), kind="no-failing-input-found",
+                correspondence="the check could not run: the code under test raised outside a generated case",
+                traceback=tb[-4000:]))
+            print("VIOLATION property=%s replay=%s no-failing-input-found" % (a.prop.upper(), path))
+            rc = 1
+        else:
+            print("INFRA-ERROR: check crashed")
+            rc = 2
     sys.stdout.flush()
     os._exit(rc)
 
